@@ -333,6 +333,99 @@ fn eval_cli(ctx: &Ctx, case: &CliCase) -> Verdict {
         .label(if case.npy_input { "npy-input" } else { "text-input" }))
 }
 
+// ---------------------------------------------------------------------------------------------
+// marginalizing population B out of the joint spectrum == spectrum created without B
+
+#[derive(Clone, Debug, Serialize, Deserialize)]
+pub struct CreateCase {
+    pub cs: crate::gen::callset::CallSet,
+    pub map: crate::gen::callset::MapSpec,
+    /// populations (axes) to marginalize out, in naming order
+    pub remove: Vec<usize>,
+}
+
+fn create_strategy() -> impl Strategy<Value = CreateCase> {
+    use crate::gen::callset::{callset_strategy, make_selected_diploid, map_draw_strategy, resolve_map, GenParams, Gt};
+    let params = GenParams {
+        max_records: 30,
+        max_samples: 9,
+        odd_ploidy: false,
+        missing_weight: 0,
+        multi_weight: 0,
+        no_gt_per_256: 0,
+    };
+    (callset_strategy(params), map_draw_strategy(9), Just((0..4usize).collect::<Vec<_>>()).prop_shuffle(), any::<u16>()).prop_map(|(mut cs, mut draw, order, take)| {
+        let n = cs.samples.len();
+        let all = vec![true; n];
+        make_selected_diploid(&mut cs, &all);
+        // complete data: replace whatever is not a call
+        for r in cs.records.iter_mut() {
+            r.has_gt = true;
+            for (i, g) in r.gts.iter_mut().enumerate() {
+                if !g.is_call() {
+                    *g = Gt::diploid(Some((i % 2) as u8), Some(((i + r.pos as usize) % 2) as u8), i % 3 == 0);
+                }
+            }
+        }
+        draw.n_labels = draw.n_labels.max(2);
+        draw.all_weight = 0;
+        let map = resolve_map(&draw, n);
+        let d = map.pop_sizes().len();
+        let order: Vec<usize> = order.into_iter().filter(|a| *a < d).collect();
+        let r = if d >= 2 { 1 + crate::engine::pick_idx(take, d - 1) } else { 0 };
+        CreateCase {
+            cs,
+            map,
+            remove: order.into_iter().take(r).collect(),
+        }
+    })
+}
+
+fn eval_create(ctx: &Ctx, case: &CreateCase) -> Verdict {
+    use crate::props::common::{run_create, Container, CreateOpts, Transport};
+    let d = case.map.pop_sizes().len();
+    if d < 2 || case.remove.is_empty() {
+        return Ok(Pass::new().label("single-population(not-applicable)"));
+    }
+    let dir = ctx.worker_dir(crate::engine::worker_id());
+    let opts = CreateOpts {
+        map: Some(case.map.clone()),
+        ..Default::default()
+    };
+    let (joint, argv) = run_create(ctx, &dir, "c04j", &case.cs, &Container::Vcf, &opts, Transport::Path);
+    ensure!(joint.ok(), "`sfs {}` failed: {}", argv.join(" "), joint.describe());
+    std::fs::write(dir.join("joint.sfs"), &joint.stdout).expect("write");
+    let marg = cli::sfs(ctx, &["view", "-m", &join(&case.remove), "--precision", "0", "joint.sfs"], Input::Null, &dir);
+    let got = cli::expect_spectrum(&marg, &format!("`sfs view -m {}` on the joint spectrum", join(&case.remove)))?;
+    // the spectrum created for the remaining populations alone
+    let pops = case.map.populations();
+    let removed_pops: Vec<Option<usize>> = case.remove.iter().map(|a| pops[*a]).collect();
+    let sub = crate::gen::callset::MapSpec {
+        entries: case.map.entries.iter().filter(|e| !removed_pops.contains(&e.1)).cloned().collect(),
+        ..case.map.clone()
+    };
+    let opts_sub = CreateOpts {
+        map: Some(sub.clone()),
+        ..Default::default()
+    };
+    let (alone, argv_sub) = run_create(ctx, &dir, "c04s", &case.cs, &Container::Vcf, &opts_sub, Transport::Path);
+    let want = cli::expect_spectrum(&alone, &format!("`sfs {}`", argv_sub.join(" ")))?;
+    ensure!(
+        got.shape == want.shape && got.values == want.values,
+        "marginalizing populations {:?} out of the joint spectrum (`sfs {}` | view -m {}) gives {:?} {:?}, but creating the spectrum for the remaining populations alone (`sfs {}`) gives {:?} {:?}",
+        case.remove,
+        argv.join(" "),
+        join(&case.remove),
+        got.shape,
+        got.values,
+        argv_sub.join(" "),
+        want.shape,
+        want.values
+    );
+    let sizes = case.map.pop_sizes();
+    Ok(Pass::new().nontrivial(d >= 3 && sizes.iter().collect::<std::collections::BTreeSet<_>>().len() >= 2).label(format!("populations={d}")).label(format!("removed={}", case.remove.len())))
+}
+
 pub fn check(ctx: &Ctx) -> Check {
     let (max_axes, max_len) = ctx.tier.pick((4, 3), (4, 4));
     let parts: Vec<Box<dyn Part>> = vec![
@@ -356,6 +449,13 @@ pub fn check(ctx: &Ctx) -> Check {
             cases: ctx.tier.pick(800, 8000),
             strategy: Box::new(|| cli_strategy().boxed()),
             eval: Box::new(eval_cli),
+        }),
+        Box::new(RandomPart {
+            name: "create-marginalize",
+            rule: "call sets without missing data, 2..4 populations of (mostly) unequal size: `create` for all populations piped into `view -m <populations>` must equal, as parsed integers, `create` for the remaining populations alone; non-trivial = >=3 populations with unequal sizes",
+            cases: ctx.tier.pick(600, 6000),
+            strategy: Box::new(|| create_strategy().boxed()),
+            eval: Box::new(eval_create),
         }),
     ];
     Check {
